@@ -66,6 +66,7 @@ class PageByStrategy(PaginationStrategy):
                 page_number=display_page_num,
                 total_pages=total_pages,
                 data=page_df,
+                row_start=start_row,
                 is_first_page=is_first,
                 is_last_page=(display_page_num == total_pages),
                 col_widths=context.col_widths,
@@ -195,6 +196,7 @@ class SublineStrategy(PageByStrategy):
                 page_number=display_page_num,
                 total_pages=total_pages,
                 data=page_df,
+                row_start=start_row,
                 is_first_page=is_first,
                 is_last_page=(display_page_num == total_pages),
                 col_widths=context.col_widths,
